@@ -111,6 +111,13 @@ def observe(case, en):
         nld, died = build(case, emb)
         netlist = Netlist(nld)
         die = Die(died, netlist)
+        # public calls a flow may make between loading and relocating (they must not change what relocation does):
+        # squares for the modules without rectangles (as the allocation stage does), a look at the wire length
+        flavour = case.get("flavour", 0)
+        if flavour & 1 and all(m.num_rectangles > 0 or m.area() > 0 for m in netlist.modules):
+            netlist.create_squares()
+        if flavour & 2:
+            _ = netlist.wire_length
     except Exception as e:   # the generator must only produce inputs FRAME accepts; counted, never an accusation
         return {"rejected": f"{type(e).__name__}: {e}"}
     S = float(max(die.width, die.height))
@@ -172,7 +179,15 @@ def observe(case, en):
                 res = orig_layout(d, kp, verbose, visualize, max_iter)
                 rd = res[0]
                 try:
-                    cost = fr.total_intersection_area(rd) + rd.netlist.wire_length / 2
+                    # the cost as the statement defines it, the wire length recomputed from the centres of this layout
+                    # (per net: weight times the sum of the distances from the member centres to their mean)
+                    wl = 0.0
+                    for e in rd.netlist.edges:
+                        k = len(e.modules)
+                        mx = sum(m.center.x for m in e.modules) / k
+                        my = sum(m.center.y for m in e.modules) / k
+                        wl += e.weight * sum(math.hypot(m.center.x - mx, m.center.y - my) for m in e.modules)
+                    cost = fr.total_intersection_area(rd) + wl / 2
                 except Exception:
                     cost = math.nan
                 calls.append((kp, cost, "|".join(_centres(rd, S)[2])))
@@ -247,7 +262,8 @@ def from_tlc(g, rng: random.Random, idx: int) -> dict:
     elif style == 2 and len(names) >= 2:
         nets = [[a, b, [rng.choice([1, 2, 3]), rng.choice([1, 2])]] for a, b in zip(names, names[1:])]
     return {"W": g["W"] * K, "H": g["H"] * K, "mods": mods, "nets": nets, "n": g["n"],
-            "kappa1000": [400, 1000, 1500, 100, 3000][idx % 5], "call": "both" if idx % 3 == 0 else "layout", "origin": "tlc"}
+            "kappa1000": [400, 1000, 1500, 100, 3000][idx % 5], "call": "both" if idx % 3 == 0 else "layout", "origin": "tlc",
+            "flavour": (idx // 3) % 4}
 
 
 def random_cases(rng: random.Random, count: int) -> list[dict]:
@@ -298,7 +314,8 @@ def random_cases(rng: random.Random, count: int) -> list[dict]:
         call = rng.choice(["layout", "layout", "both", "force"])
         n = rng.choice([0, 1, 2, 5, 20, 100]) if call == "layout" else rng.choice([0, 1, 2, 5, 20])
         cases.append({"W": W, "H": H, "mods": mods, "nets": nets, "n": n,
-                      "kappa1000": rng.choice([100, 400, 700, 1000, 1500, 3000]), "call": call, "origin": "random"})
+                      "kappa1000": rng.choice([100, 400, 700, 1000, 1500, 3000]), "call": call, "origin": "random",
+                      "flavour": rng.randrange(4)})
     return cases
 
 
